@@ -908,6 +908,8 @@ class Executor:
     def concrete_items(self, st, v):
         if isinstance(v, STuple):
             return list(v.items)
+        if isinstance(v, PyConst) and isinstance(v.val, (list, tuple)) and all(isinstance(x, (int, str, bytes)) for x in v.val):
+            return [self.lift(x) for x in v.val]          # module / class level constant list of scalars
         if isinstance(v, Ref):
             o = st.obj(v)
             if isinstance(o, HList) and o.items is not None:
@@ -1852,7 +1854,7 @@ class Executor:
                 continue
             itv = r.v
             items = self.concrete_items(r.st, itv)
-            if items is not None and len(items) <= 8:
+            if items is not None and len(items) <= 16:
                 outs += self.unrolled_for(s, r.st, items)
             else:
                 outs += self.loop(s, r.st, kind="for", itv=itv)
